@@ -18,14 +18,10 @@ inductive Outcome (α : Type)
   | err (e : ErrClass)
   | panic (p : PanicClass)
   | unmodelled
-  deriving Repr
+  deriving Repr, DecidableEq
 
 namespace Outcome
 variable {α β : Type}
-
-instance [DecidableEq α] : DecidableEq (Outcome α) := by
-  intro a b
-  cases a <;> cases b <;> simp <;> exact inferInstance
 
 @[inline] def bind (x : Outcome α) (f : α → Outcome β) : Outcome β :=
   match x with
@@ -91,4 +87,44 @@ theorem idx?_ok_of_lt {α : Type} (l : List α) (i : Nat) (h : i < l.length) :
     idx? l i = .ok l[i] := by
   simp [idx?, List.getElem?_eq_getElem h]
 
+end TrackVerif
+
+namespace TrackVerif
+namespace Outcome
+variable {α β : Type}
+
+/-- the outcome is not a Go panic -/
+def NoPanic (x : Outcome α) : Prop := ∀ p, x ≠ .panic p
+
+@[simp] theorem noPanic_ok (a : α) : NoPanic (.ok a) := by intro p h; cases h
+@[simp] theorem noPanic_err (e : ErrClass) : NoPanic (.err e : Outcome α) := by intro p h; cases h
+@[simp] theorem noPanic_unmodelled : NoPanic (.unmodelled : Outcome α) := by intro p h; cases h
+@[simp] theorem not_noPanic_panic (p : PanicClass) : ¬ NoPanic (.panic p : Outcome α) := fun h => h p rfl
+
+theorem bind_eq_ok {x : Outcome α} {f : α → Outcome β} {b : β} :
+    x.bind f = .ok b ↔ ∃ a, x = .ok a ∧ f a = .ok b := by
+  cases x <;> simp [bind]
+
+theorem map_eq_ok {x : Outcome α} {f : α → β} {b : β} :
+    x.map f = .ok b ↔ ∃ a, x = .ok a ∧ f a = b := by
+  cases x <;> simp [map, bind]
+
+theorem noPanic_bind {x : Outcome α} {f : α → Outcome β}
+    (hx : NoPanic x) (hf : ∀ a, x = .ok a → NoPanic (f a)) : NoPanic (x.bind f) := by
+  cases x with
+  | ok a => simpa [bind] using hf a rfl
+  | err e => simp [bind]
+  | panic p => exact absurd hx (by simp)
+  | unmodelled => simp [bind]
+
+theorem noPanic_map {x : Outcome α} {f : α → β} (hx : NoPanic x) : NoPanic (x.map f) :=
+  noPanic_bind hx (fun _ _ => by simp)
+
+theorem noPanic_ite {c : Prop} [Decidable c] {a b : Outcome α}
+    (ha : c → NoPanic a) (hb : ¬ c → NoPanic b) : NoPanic (if c then a else b) := by
+  split
+  · exact ha ‹_›
+  · exact hb ‹_›
+
+end Outcome
 end TrackVerif
